@@ -379,23 +379,25 @@ DEFUN int32_t
 strtoarri(const char *buf, const char **ep, const char *const *arr, size_t narr)
 {
 /* take a string, compare it to an array of string (case-insensitively) and
- * return its index if found or 0 if not */
+ * return the index of the longest entry it starts with or -1 if there is none,
+ * Cumartesi is not Cuma */
+	int32_t res = -1;
+	size_t best = 0U;
+
 	for (size_t i = 1U; i < narr; i++) {
 		const char *chk = arr[i];
 		size_t len = strlen(chk);
 
-		if (strncasecmp(chk, buf, len) == 0) {
-			if (ep != NULL) {
-				*ep = buf + len;
-			}
-			return i;
+		if ((res < 0 || len > best) &&
+		    strncasecmp(chk, buf, len) == 0) {
+			res = (int32_t)i;
+			best = len;
 		}
 	}
-	/* no matches */
 	if (ep != NULL) {
-		*ep = buf;
+		*ep = buf + best;
 	}
-	return -1;
+	return res;
 }
 
 DEFUN size_t
